@@ -13,6 +13,6 @@ go test -vet=off -count=1 ./... 2>&1 | grep -v "no test files" | sed 's/^/  suit
 "$@" >/tmp/demo_with.txt 2>&1; echo "demo WITH change: exit $? ; $(tail -1 /tmp/demo_with.txt | cut -c1-200)"
 git stash -q
 "$@" >/tmp/demo_without.txt 2>&1; echo "demo WITHOUT change: exit $? ; $(tail -1 /tmp/demo_without.txt | cut -c1-200)"
-git stash pop -q
+git checkout -q go.mod 2>/dev/null; git stash pop -q
 git checkout -q go.mod 2>/dev/null
 git status --short | head -5
